@@ -118,6 +118,57 @@ func runC12(c *Ctx) {
 		}
 	}
 	c.OnlyCalledFrom("ck.Keeper.SetHeightValsetUpdateID", "ck.Keeper.OnRecvVSCPacket", "consumer.AppModule.BeginBlock")
+	// genesis restores the tables with every pair in its roles (both columns are uint64)
+	if f := c.Fn("ck.Keeper.InitGenesis"); f != nil {
+		elem := PElemOf(PField(PParam("state"), "HeightToValsetUpdateId"))
+		nPair, nZero := 0, 0
+		for _, set := range Calls(f, false, "ck.Keeper.SetHeightValsetUpdateID") {
+			switch {
+			case PField(elem, "Height")(arg(set, 1)) && PField(elem, "ValsetUpdateId")(arg(set, 2)):
+				nPair++
+			case blockHeightU64(arg(set, 1)) && PConstInt(0)(arg(set, 2)):
+				nZero++
+			default:
+				c.Check(false, fk(f, "genesis-height-id-roles"), set, "SetHeightValsetUpdateID(entry.Height, entry.ValsetUpdateId) or (uint64(BlockHeight), 0); found ("+describe(arg(set, 1))+", "+describe(arg(set, 2))+")")
+			}
+		}
+		c.Check(nPair == 1 && nZero == 1, fk(f, "genesis-height-id-roles"), f, fmt.Sprintf("a restart restores every exported (height, id) pair in its roles; a new chain maps its genesis height to id 0 (%d+%d sites)", nPair, nZero))
+	}
+	if f := c.Fn("ck.Keeper.ExportGenesis"); f != nil {
+		n := 0
+		for _, cl := range AllCalls(f, false) {
+			if isCallTo(cl, "ct.NewRestartGenesisState") {
+				n++
+				okH := false
+				for _, a := range callArgs(cl) {
+					if PCall("ck.Keeper.GetAllHeightToValsetUpdateIDs", -1, nil)(a) {
+						okH = true
+					}
+				}
+				c.Check(okH, fk(f, "exports-height-id-table"), cl, "the restart genesis carries GetAllHeightToValsetUpdateIDs()")
+			}
+		}
+		c.Check(n >= 1, fk(f, "exports-height-id-table", "census"), f, fmt.Sprintf("%d restart-genesis constructions analysed", n))
+	}
+	if f := c.Fn("pk.Keeper.InitGenesis"); f != nil {
+		gs := PParam("genState")
+		if set := c.one(f, false, "pk.Keeper.SetValidatorSetUpdateId"); set != nil {
+			c.Check(PField(gs, "ValsetUpdateId")(arg(set, 1)), fk(f, "genesis-counter"), set, "counter := genState.ValsetUpdateId; found "+describe(arg(set, 1)))
+		}
+		if set := c.one(f, false, "pk.Keeper.SetValsetUpdateBlockHeight"); set != nil {
+			e := PElemOf(PField(gs, "ValsetUpdateIdToHeight"))
+			c.Check(PField(e, "ValsetUpdateId")(arg(set, 1)) && PField(e, "Height")(arg(set, 2)), fk(f, "genesis-id-height-roles"), set, "SetValsetUpdateBlockHeight(entry.ValsetUpdateId, entry.Height); found ("+describe(arg(set, 1))+", "+describe(arg(set, 2))+")")
+		}
+		if set := c.one(f, false, "pk.Keeper.SetInitChainHeight"); set != nil {
+			e := PElemOf(PField(gs, "ConsumerStates"))
+			c.Check(PField(e, "ChainId")(arg(set, 1)) && PField(e, "InitialHeight")(arg(set, 2)), fk(f, "genesis-init-height"), set, "SetInitChainHeight(cs.ChainId, cs.InitialHeight); found ("+describe(arg(set, 1))+", "+describe(arg(set, 2))+")")
+		}
+	}
+	if f := c.Fn("pk.Keeper.ExportGenesis"); f != nil {
+		if n := c.one(f, false, "pt.NewGenesisState"); n != nil {
+			c.Check(PCall("pk.Keeper.GetValidatorSetUpdateId", -1, nil)(arg(n, 0)) && PCall("pk.Keeper.GetAllValsetUpdateBlockHeights", -1, nil)(arg(n, 1)), fk(f, "exports-counter-and-table"), n, "exports (GetValidatorSetUpdateId, GetAllValsetUpdateBlockHeights) in the first two slots; found "+describe(arg(n, 0))+", "+describe(arg(n, 1)))
+		}
+	}
 	if f := c.Fn("ck.Keeper.SlashWithInfractionReason"); f != nil {
 		if qs := c.one(f, false, "ck.Keeper.QueueSlashPacket"); qs != nil {
 			ok := isCallResult(arg(qs, 2), -1, func(g *ssa.Call) bool { return isParam(arg(g, 1), "infractionHeight") }, "ck.Keeper.GetHeightValsetUpdateID")
